@@ -98,6 +98,23 @@ func init() {
 		})
 		g.p("/-- the calls made inside the closure `onDisconnect` hands to `tasks.Range` -/")
 		g.p("def onDisconnectNotifies : List String := %s", leanStrList(inner))
+		// the deferred clean-up of Scheduler.Run: a closure (its variables are read when Run returns) or a call (its arguments are
+		// evaluated at the defer statement), and what it calls
+		srun := g.methodDecl(fScheduler, "Scheduler", "Run")
+		var defers []string
+		for _, st := range srun.Body.List {
+			d, ok := st.(*ast.DeferStmt)
+			if !ok {
+				continue
+			}
+			if fl, ok := d.Call.Fun.(*ast.FuncLit); ok {
+				defers = append(defers, "closure: "+strings.Join(callNames(fl.Body.List, 2), ", "))
+			} else {
+				defers = append(defers, "call: "+oneLine(g.src(d.Call)))
+			}
+		}
+		g.p("/-- the top-level defers of `Scheduler.Run` -/")
+		g.p("def schedulerRunDefers : List String := %s", leanStrList(defers))
 	}
 	props["C15"] = func(g *gen) {
 		// the handshake handlers that send a request to the pool: the handler for the answer is registered and the request is
